@@ -335,7 +335,7 @@ class Gen:
             return
         if budget <= 0 or self.p(0.55):
             t, k = self.simple_exec()
-            lab = None
+            lab = self.newlabel() if self.p(0.08) else None      # an unreferenced statement label
             self.emit(t, kind=k, simple_exec=True, label=lab)
             return
         k = self.r.randrange(13)
@@ -375,7 +375,8 @@ class Gen:
     def if_construct(self, b):
         c = self.newcid()
         nm = self.cname(["chkC"])
-        self.emit("if (%s) then" % self.lexpr(2), name=nm, role="open", kind="if_construct", cid=c)
+        self.emit("if (%s) then" % self.lexpr(2), name=nm, role="open", kind="if_construct", cid=c,
+                  label=self.newlabel() if self.p(0.2) else None)
         self.depth += 1
         self.body(self.r.randrange(1, 3), b)
         self.depth -= 1
@@ -402,7 +403,8 @@ class Gen:
     def do_block(self, b):
         c = self.newcid()
         nm = self.cname(["loopA", "loopB"])
-        self.emit("do %s" % self.loop_ctl(), name=nm, role="open", kind="do_block", cid=c)
+        self.emit("do %s" % self.loop_ctl(), name=nm, role="open", kind="do_block", cid=c,
+                  label=self.newlabel() if self.p(0.2) else None)
         self.loop_names.append(nm)
         self.depth += 1
         self.body(self.r.randrange(1, 4), b)
